@@ -164,13 +164,14 @@ pub struct Vm {
     pub ghost next_name: int,
     pub ghost next_byte: u8,
     pub ghost the_string_class: Gc<ObjClass>,   // the cell `Vm.string_class` roots
+    pub next_string: Gc<ObjString>,             // the interned name "next" (vm.rs init_heap_allocated_data)
 }
 
 impl Vm {
     // `self.string_class.as_ref().expect(..).as_gc()`: the String class (set once by init_heap_allocated_data)
     #[verifier::external_body]
     fn string_class_gc(&self) -> (r: Gc<ObjClass>) ensures r == self.the_string_class { unimplemented!() }
-    pub open spec fn same_heap(&self, o: &Vm) -> bool { self.insts == o.insts && self.mods == o.mods && self.working_class_def == o.working_class_def }
+    pub open spec fn same_heap(&self, o: &Vm) -> bool { self.insts == o.insts && self.mods == o.mods && self.working_class_def == o.working_class_def && self.next_string == o.next_string && self.the_string_class == o.the_string_class }
     pub open spec fn quiet(&self, o: &Vm) -> bool { self.same_heap(o) && self.stack == o.stack && self.raised == o.raised && self.called == o.called && self.next_name == o.next_name && self.next_byte == o.next_byte }
     pub open spec fn top(&self, depth: int) -> Value { self.stack[self.stack.len() - 1 - depth] }
     // every instance / module value on the stack designates a cell with content
@@ -325,6 +326,18 @@ impl Vm {
     //@  ensures @own_field_first (old(self).top(arg_count as int) is ObjInstance && old(self).inst_of(old(self).top(arg_count as int)).fields.view.dom().contains(name.id())) ==> final(self).called == Some((Callee::AnyValue(old(self).inst_of(old(self).top(arg_count as int)).fields.view[name.id()]), arg_count)) && final(self).stack_at_call == old(self).stack.update(old(self).stack.len() - 1 - arg_count, old(self).inst_of(old(self).top(arg_count as int)).fields.view[name.id()])
     //@  ensures @otherwise_the_method_of_its_class (old(self).top(arg_count as int) is ObjInstance && !old(self).inst_of(old(self).top(arg_count as int)).fields.view.dom().contains(name.id()) && closure_method(old(self).inst_of(old(self).top(arg_count as int)).class, name.id())) ==> final(self).called == Some((Callee::Closure(the_closure(old(self).inst_of(old(self).top(arg_count as int)).class, name.id())), arg_count)) && final(self).stack_at_call == old(self).stack
     //@  ensures @unknown_member_is_an_attribute_error (old(self).top(arg_count as int) is ObjInstance && !old(self).inst_of(old(self).top(arg_count as int)).fields.view.dom().contains(name.id()) && !has_method(old(self).inst_of(old(self).top(arg_count as int)).class, name.id())) ==> final(self).raised == Some(ErrorKind::AttributeError) && final(self).called == old(self).called
+    //@end
+
+    // IterNext (every `for` loop, once per iteration): the iterator on top of the stack is asked for its next element
+    // EXACTLY as an explicit `it.next()` would — duplicated, then Invoke "next" with no arguments: own field first,
+    // otherwise the method of its class, otherwise an AttributeError. (C18: a for loop over "any object offering the
+    // iteration protocol" — whatever way the object offers `next` to an explicit call.)
+    //@fn file=yarel/src/vm.rs path=Vm::iter_next_impl ret=r props=C18,C07
+    //@  requires old(self).wf(), old(self).stack.len() >= 1, tables_ok()
+    //@  ensures old(self).same_heap(final(self))
+    //@  ensures @a_for_loop_finds_next_like_an_explicit_call_own_field_first (old(self).top(0) is ObjInstance && old(self).inst_of(old(self).top(0)).fields.view.dom().contains(old(self).next_string.id())) ==> final(self).called == Some((Callee::AnyValue(old(self).inst_of(old(self).top(0)).fields.view[old(self).next_string.id()]), 0usize)) && final(self).stack_at_call =~= old(self).stack.push(old(self).inst_of(old(self).top(0)).fields.view[old(self).next_string.id()])
+    //@  ensures @a_for_loop_finds_next_like_an_explicit_call_otherwise_the_method_of_its_class (old(self).top(0) is ObjInstance && !old(self).inst_of(old(self).top(0)).fields.view.dom().contains(old(self).next_string.id()) && closure_method(old(self).inst_of(old(self).top(0)).class, old(self).next_string.id())) ==> final(self).called == Some((Callee::Closure(the_closure(old(self).inst_of(old(self).top(0)).class, old(self).next_string.id())), 0usize)) && final(self).stack_at_call == old(self).stack.push(old(self).top(0))
+    //@  ensures @an_object_without_next_is_an_attribute_error (old(self).top(0) is ObjInstance && !old(self).inst_of(old(self).top(0)).fields.view.dom().contains(old(self).next_string.id()) && !has_method(old(self).inst_of(old(self).top(0)).class, old(self).next_string.id())) ==> final(self).raised == Some(ErrorKind::AttributeError) && final(self).called == old(self).called
     //@end
 
     // `super.name` / `super.name(args)`: the class value the compiler pushed (the `super` variable captured at class
